@@ -10,10 +10,13 @@ pub mod c03;
 pub mod c04;
 pub mod c05;
 pub mod c06;
+pub mod c07;
 pub mod c09;
+pub mod c10;
 pub mod c11;
 pub mod c12;
 pub mod c14;
+pub mod c16;
 pub mod c19;
 pub mod c20;
 pub mod pad;
@@ -79,6 +82,21 @@ pub fn dispatch(prop: &str, ctx: Ctx, replay: Option<&str>) -> i32 {
             crate::run::start_watchdog(std::time::Duration::from_secs(120), Some("C20"));
             let rep = c20::run_frame_level(ctx);
             finish(rep, c20::meta(), ctx.tier, ctx.seed, started)
+        }
+        "C07" => {
+            crate::run::start_watchdog(std::time::Duration::from_secs(900), None);
+            let rep = c07::run(ctx);
+            finish(rep, c07::meta(), ctx.tier, ctx.seed, started)
+        }
+        "C10" => {
+            crate::run::start_watchdog(std::time::Duration::from_secs(900), None);
+            let rep = c10::run(ctx);
+            finish(rep, c10::meta(), ctx.tier, ctx.seed, started)
+        }
+        "C16" => {
+            crate::run::start_watchdog(std::time::Duration::from_secs(900), None);
+            let rep = c16::run(ctx);
+            finish(rep, c16::meta(), ctx.tier, ctx.seed, started)
         }
         "C03" => {
             let mut rep = Report::new("C03");
